@@ -100,6 +100,26 @@ func C20Scenario(tier string) *engine.Scenario {
 			fixed(Tx("addv", "addv(N1)", &nodetypes.MsgAddVstorage{Creator: n1.S(), Size_: 1_000_000})),
 			fixed(Tx("reset", "reset(N1,full,V)", &nodetypes.MsgReset{Creator: n1.S(), Status: FullStatus, Validator: v})))
 		return st
+	}}, {Name: "K2", Setup: func(w *world.World) []engine.SetupStep {
+		// two super nodes on different validators: N1 through V (200M of 1700M = 11.8 %), N2 through V2; a delegation of N2
+		// to V (not its declared validator) can push N1 below the threshold
+		var st []engine.SetupStep
+		for _, i := range []int{world.S1, world.S2} {
+			a := w.A(i)
+			st = append(st, fixed(Tx("create", "create("+a.Name+")", &nodetypes.MsgCreate{Creator: a.S()})))
+		}
+		v, v2 := sdk.ValAddress(w.A(world.V).Addr).String(), sdk.ValAddress(w.A(world.V2).Addr).String()
+		n1, n2 := w.A(world.S1), w.A(world.S2)
+		c := func(n int64) sdk.Coin { return sdk.NewInt64Coin(world.Denom, n) }
+		st = append(st,
+			fixed(Tx("delegate", "delegate(T,V,500M)", &stakingtypes.MsgDelegate{DelegatorAddress: w.A(world.T).S(), ValidatorAddress: v, Amount: c(500_000_000)})),
+			fixed(Tx("delegate", "delegate(N1,V,200M)", &stakingtypes.MsgDelegate{DelegatorAddress: n1.S(), ValidatorAddress: v, Amount: c(200_000_000)})),
+			fixed(Tx("addv", "addv(N1)", &nodetypes.MsgAddVstorage{Creator: n1.S(), Size_: 1_000_000})),
+			fixed(Tx("reset", "reset(N1,full,V)", &nodetypes.MsgReset{Creator: n1.S(), Status: FullStatus, Validator: v})),
+			fixed(Tx("delegate", "delegate(N2,V2,200M)", &stakingtypes.MsgDelegate{DelegatorAddress: n2.S(), ValidatorAddress: v2, Amount: c(200_000_000)})),
+			fixed(Tx("addv", "addv(N2)", &nodetypes.MsgAddVstorage{Creator: n2.S(), Size_: 1_000_000})),
+			fixed(Tx("reset", "reset(N2,full,V2)", &nodetypes.MsgReset{Creator: n2.S(), Status: FullStatus, Validator: v2})))
+		return st
 	}}}
 	sc.Ops = func(w *world.World, ctx sdk.Context, s *engine.State) []engine.Op {
 		var out []engine.Op
@@ -141,7 +161,9 @@ func C20Scenario(tier string) *engine.Scenario {
 		out = append(out,
 			Tx("reset", "reset(N1,full,V)", &nodetypes.MsgReset{Creator: n1.S(), Status: FullStatus, Validator: vals["V"]}),
 			Tx("reset", "reset(N1,full,V2)", &nodetypes.MsgReset{Creator: n1.S(), Status: FullStatus, Validator: vals["V2"]}),
-			Tx("reset", "reset(N1,online-only)", &nodetypes.MsgReset{Creator: n1.S(), Status: nodetypes.NODE_STATUS_ONLINE}))
+			Tx("reset", "reset(N1,online-only)", &nodetypes.MsgReset{Creator: n1.S(), Status: nodetypes.NODE_STATUS_ONLINE}),
+			Tx("reset", "reset(N2,full,V2)", &nodetypes.MsgReset{Creator: w.A(world.S2).S(), Status: FullStatus, Validator: vals["V2"]}),
+			Tx("delegate", "delegate(N2,V2,130M)", &stakingtypes.MsgDelegate{DelegatorAddress: w.A(world.S2).S(), ValidatorAddress: vals["V2"], Amount: coin(130_000_000)}))
 		h := ctx.BlockHeight()
 		out = append(out, engine.Op{Label: fmt.Sprintf("fullend@%d", h), Kind: "fullend", Meta: map[string]string{"advance": "1"},
 			Custom: func(w *world.World, c sdk.Context) world.Result {
